@@ -41,9 +41,28 @@ pub fn gen_text(d: &mut Dice<'_>, stream: &[u32]) -> String {
             let g = ggen::build(&Profile::full(), stream);
             print(&g).text
         }
-        3 | 4 => {
+        3 => {
             let g = ggen::build(&Profile::text(), stream);
             textgen::layout(&g, d, true).text
+        }
+        4 => {
+            // documented grammar: doc comments of several shapes in front of the declarations
+            // (hover on a reference shows the documentation of what it refers to)
+            const DOCS: &[&str] = &["", " plain words", "→ arrow first", "äöü: umlauts", " `code` and *markdown*", "é😀", "   indented", "/ four slashes", "\t tab"];
+            let g = ggen::build(&Profile::full(), stream);
+            let mut out = String::new();
+            for line in print(&g).text.lines() {
+                if !line.trim().is_empty() && d.chance(1, 2) {
+                    for _ in 0..1 + d.below(2) {
+                        out.push_str("///");
+                        out.push_str(DOCS[d.below(DOCS.len())]);
+                        out.push('\n');
+                    }
+                }
+                out.push_str(line);
+                out.push('\n');
+            }
+            out
         }
         5 => {
             let g = ggen::build(&Profile::ebnf(), stream);
